@@ -543,6 +543,7 @@ func checkC14(c *Ctx) {
 	}
 	c.MinCount("SYM", 6)
 	ruleSymDead(c, s)
+	ruleMinLen(c, "C14")
 	_ = ssa.Function{}
 }
 
